@@ -21,25 +21,28 @@ inline void post<a32>(const volatile a32* a, int kind, a32 before, a32 after) {
 }
 
 #define RMW(N, name, builtin)                                                     \
-  extern "C" a##N __tsan_atomic##N##_##name(volatile a##N* a, a##N v, int) {      \
+  extern "C" a##N __tsan_atomic##N##_##name(volatile a##N* a, a##N v, int mo) {   \
     sim_point(SP_RMW, (const void*)a);                                            \
     a##N before = builtin(a, v, __ATOMIC_SEQ_CST);                                \
     post<a##N>(a, SP_RMW, before, __atomic_load_n(a, __ATOMIC_SEQ_CST));          \
+    sim_race_atomic((const void*)a, 2, mo);                                       \
     return before;                                                                \
   }
 
 #define SHIM(N)                                                                                       \
-  extern "C" a##N __tsan_atomic##N##_load(const volatile a##N* a, int) {                              \
+  extern "C" a##N __tsan_atomic##N##_load(const volatile a##N* a, int mo) {                           \
     sim_point(SP_LOAD, (const void*)a);                                                               \
     a##N v = __atomic_load_n(a, __ATOMIC_SEQ_CST);                                                    \
     post<a##N>(a, SP_LOAD, v, v);                                                                     \
+    sim_race_atomic((const void*)a, 0, mo);                                                           \
     return v;                                                                                         \
   }                                                                                                   \
-  extern "C" void __tsan_atomic##N##_store(volatile a##N* a, a##N v, int) {                           \
+  extern "C" void __tsan_atomic##N##_store(volatile a##N* a, a##N v, int mo) {                        \
     sim_point(SP_STORE, (const void*)a);                                                              \
     a##N before = __atomic_load_n(a, __ATOMIC_SEQ_CST);                                               \
     __atomic_store_n(a, v, __ATOMIC_SEQ_CST);                                                         \
     post<a##N>(a, SP_STORE, before, v);                                                               \
+    sim_race_atomic((const void*)a, 1, mo);                                                           \
   }                                                                                                   \
   RMW(N, exchange, __atomic_exchange_n)                                                               \
   RMW(N, fetch_add, __atomic_fetch_add)                                                               \
@@ -48,30 +51,33 @@ inline void post<a32>(const volatile a32* a, int kind, a32 before, a32 after) {
   RMW(N, fetch_or, __atomic_fetch_or)                                                                 \
   RMW(N, fetch_xor, __atomic_fetch_xor)                                                               \
   RMW(N, fetch_nand, __atomic_fetch_nand)                                                             \
-  extern "C" int __tsan_atomic##N##_compare_exchange_strong(volatile a##N* a, a##N* c, a##N v, int,   \
-                                                            int) {                                    \
+  extern "C" int __tsan_atomic##N##_compare_exchange_strong(volatile a##N* a, a##N* c, a##N v, int mo, \
+                                                            int fmo) {                                \
     sim_point(SP_CAS, (const void*)a);                                                                \
     a##N expected = *c;                                                                               \
     int ok = __atomic_compare_exchange_n(a, c, v, false, __ATOMIC_SEQ_CST, __ATOMIC_SEQ_CST);         \
     /* before = observed value; after = new value; a successful CAS is reported as SP_CAS, a failed */ \
     /* one as SP_LOAD (it only observed) */                                                           \
     post<a##N>(a, ok ? SP_CAS : SP_LOAD, ok ? expected : *c, ok ? v : *c);                            \
+    sim_race_atomic((const void*)a, ok ? 2 : 0, ok ? mo : fmo);                                       \
     return ok;                                                                                        \
   }                                                                                                   \
-  extern "C" int __tsan_atomic##N##_compare_exchange_weak(volatile a##N* a, a##N* c, a##N v, int,     \
-                                                          int) {                                      \
+  extern "C" int __tsan_atomic##N##_compare_exchange_weak(volatile a##N* a, a##N* c, a##N v, int mo,  \
+                                                          int fmo) {                                  \
     sim_point(SP_CAS, (const void*)a);                                                                \
     a##N expected = *c;                                                                               \
     int ok = __atomic_compare_exchange_n(a, c, v, false, __ATOMIC_SEQ_CST, __ATOMIC_SEQ_CST);         \
     post<a##N>(a, ok ? SP_CAS : SP_LOAD, ok ? expected : *c, ok ? v : *c);                            \
+    sim_race_atomic((const void*)a, ok ? 2 : 0, ok ? mo : fmo);                                       \
     return ok;                                                                                        \
   }                                                                                                   \
-  extern "C" a##N __tsan_atomic##N##_compare_exchange_val(volatile a##N* a, a##N c, a##N v, int,      \
-                                                          int) {                                      \
+  extern "C" a##N __tsan_atomic##N##_compare_exchange_val(volatile a##N* a, a##N c, a##N v, int mo,   \
+                                                          int fmo) {                                  \
     sim_point(SP_CAS, (const void*)a);                                                                \
     a##N expected = c;                                                                                \
     int ok = __atomic_compare_exchange_n(a, &c, v, false, __ATOMIC_SEQ_CST, __ATOMIC_SEQ_CST);        \
     post<a##N>(a, ok ? SP_CAS : SP_LOAD, ok ? expected : c, ok ? v : c);                              \
+    sim_race_atomic((const void*)a, ok ? 2 : 0, ok ? mo : fmo);                                       \
     return c;                                                                                         \
   }
 
@@ -80,63 +86,79 @@ SHIM(16)
 SHIM(32)
 SHIM(64)
 
-extern "C" void __tsan_atomic_thread_fence(int) {
+extern "C" void __tsan_atomic_thread_fence(int mo) {
   sim_point(SP_FENCE, nullptr);
   __atomic_thread_fence(__ATOMIC_SEQ_CST);
+  sim_race_fence(mo);
 }
 extern "C" void __tsan_atomic_signal_fence(int) {}
 extern "C" void __tsan_init(void) {}
 
 // dispenso's tsan_annotations.cpp forwards to these (weak there); no-ops under SIM.
-extern "C" void AnnotateIgnoreReadsBegin(const char*, int) {}
-extern "C" void AnnotateIgnoreReadsEnd(const char*, int) {}
-extern "C" void AnnotateIgnoreWritesBegin(const char*, int) {}
-extern "C" void AnnotateIgnoreWritesEnd(const char*, int) {}
-extern "C" void AnnotateNewMemory(const char*, int, const volatile void*, long) {}
-extern "C" void AnnotateHappensBefore(const char*, int, const volatile void*) {}
-extern "C" void AnnotateHappensAfter(const char*, int, const volatile void*) {}
+// (they have no effect on scheduling; the race detector honours them as ThreadSanitizer would)
+extern "C" void AnnotateIgnoreReadsBegin(const char*, int) {
+  sim_race_ignore(1, 0);
+}
+extern "C" void AnnotateIgnoreReadsEnd(const char*, int) {
+  sim_race_ignore(-1, 0);
+}
+extern "C" void AnnotateIgnoreWritesBegin(const char*, int) {
+  sim_race_ignore(0, 1);
+}
+extern "C" void AnnotateIgnoreWritesEnd(const char*, int) {
+  sim_race_ignore(0, -1);
+}
+extern "C" void AnnotateNewMemory(const char*, int, const volatile void* a, long n) {
+  sim_race_new_memory((const void*)a, (size_t)n);
+}
+extern "C" void AnnotateHappensBefore(const char*, int, const volatile void* a) {
+  sim_race_release((const void*)a);
+}
+extern "C" void AnnotateHappensAfter(const char*, int, const volatile void* a) {
+  sim_race_acquire((const void*)a);
+}
 
 // ---------------------------------------------------------------------------------------------
 // "fine" variants: the tsan pass also instruments plain memory accesses; each access made by code
 // under test (not by harness or C++ standard library code: classified by the caller's symbol) is a
 // simulation point too, so windows that open or close at a non-atomic access become explorable.
 // ---------------------------------------------------------------------------------------------
-#define PLAIN_R(name) \
-  extern "C" void name(void* a) { sim_plain_point(__builtin_return_address(0), a, 0); }
-#define PLAIN_W(name) \
-  extern "C" void name(void* a) { sim_plain_point(__builtin_return_address(0), a, 1); }
-PLAIN_R(__tsan_read1)
-PLAIN_R(__tsan_read2)
-PLAIN_R(__tsan_read4)
-PLAIN_R(__tsan_read8)
-PLAIN_R(__tsan_read16)
-PLAIN_W(__tsan_write1)
-PLAIN_W(__tsan_write2)
-PLAIN_W(__tsan_write4)
-PLAIN_W(__tsan_write8)
-PLAIN_W(__tsan_write16)
-PLAIN_R(__tsan_unaligned_read2)
-PLAIN_R(__tsan_unaligned_read4)
-PLAIN_R(__tsan_unaligned_read8)
-PLAIN_R(__tsan_unaligned_read16)
-PLAIN_W(__tsan_unaligned_write2)
-PLAIN_W(__tsan_unaligned_write4)
-PLAIN_W(__tsan_unaligned_write8)
-PLAIN_W(__tsan_unaligned_write16)
-PLAIN_W(__tsan_read_write1)
-PLAIN_W(__tsan_read_write2)
-PLAIN_W(__tsan_read_write4)
-PLAIN_W(__tsan_read_write8)
-PLAIN_W(__tsan_read_write16)
-PLAIN_R(__tsan_vptr_read)
+#define PLAIN_R(name, n) \
+  extern "C" void name(void* a) { sim_plain_point_n(__builtin_return_address(0), a, 0, n); }
+#define PLAIN_W(name, n) \
+  extern "C" void name(void* a) { sim_plain_point_n(__builtin_return_address(0), a, 1, n); }
+PLAIN_R(__tsan_read1, 1)
+PLAIN_R(__tsan_read2, 2)
+PLAIN_R(__tsan_read4, 4)
+PLAIN_R(__tsan_read8, 8)
+PLAIN_R(__tsan_read16, 16)
+PLAIN_W(__tsan_write1, 1)
+PLAIN_W(__tsan_write2, 2)
+PLAIN_W(__tsan_write4, 4)
+PLAIN_W(__tsan_write8, 8)
+PLAIN_W(__tsan_write16, 16)
+PLAIN_R(__tsan_unaligned_read2, 2)
+PLAIN_R(__tsan_unaligned_read4, 4)
+PLAIN_R(__tsan_unaligned_read8, 8)
+PLAIN_R(__tsan_unaligned_read16, 16)
+PLAIN_W(__tsan_unaligned_write2, 2)
+PLAIN_W(__tsan_unaligned_write4, 4)
+PLAIN_W(__tsan_unaligned_write8, 8)
+PLAIN_W(__tsan_unaligned_write16, 16)
+PLAIN_W(__tsan_read_write1, 1)
+PLAIN_W(__tsan_read_write2, 2)
+PLAIN_W(__tsan_read_write4, 4)
+PLAIN_W(__tsan_read_write8, 8)
+PLAIN_W(__tsan_read_write16, 16)
+PLAIN_R(__tsan_vptr_read, 8)
 extern "C" void __tsan_vptr_update(void** a, void*) {
-  sim_plain_point(__builtin_return_address(0), a, 1);
+  sim_plain_point_n(__builtin_return_address(0), a, 1, 8);
 }
-extern "C" void __tsan_read_range(void* a, unsigned long) {
-  sim_plain_point(__builtin_return_address(0), a, 0);
+extern "C" void __tsan_read_range(void* a, unsigned long n) {
+  sim_plain_point_n(__builtin_return_address(0), a, 0, n > 256 ? 256 : (int)n);
 }
-extern "C" void __tsan_write_range(void* a, unsigned long) {
-  sim_plain_point(__builtin_return_address(0), a, 1);
+extern "C" void __tsan_write_range(void* a, unsigned long n) {
+  sim_plain_point_n(__builtin_return_address(0), a, 1, n > 256 ? 256 : (int)n);
 }
 extern "C" void __tsan_func_entry(void*) {}
 extern "C" void __tsan_func_exit() {}
